@@ -48,11 +48,16 @@ def shards(tier, seed, scale=1.0):
     if tier == 'quick':
         fb, nlen, FS, pb, PS, hyp_n, ncfg = 3, 4, 12, 3, 32, 120, 3
     else:
-        fb, nlen, FS, pb, PS, hyp_n, ncfg = 4, 5, 96, 4, 192, 2000, 4
+        fb, nlen, FS, pb, PS, hyp_n, ncfg = 4, 4, 128, 4, 256, 2000, 2
     for s in range(FS):
         out.append({'name': 'fn-enum-%d' % s, 'kind': 'fn-enum', 'shard': s, 'of': FS, 'budget': fb, 'nlen': nlen})
     for s in range(PS):
-        out.append({'name': 'path-enum-%d' % s, 'kind': 'path-enum', 'shard': s, 'of': PS, 'budget': pb, 'plen': 5, 'ncfg': ncfg})
+        out.append({'name': 'path-enum-%d' % s, 'kind': 'path-enum', 'shard': s, 'of': PS, 'budget': pb, 'plen': 5 if tier == 'quick' else 4,
+                    'ncfg': ncfg})
+    if tier != 'quick':
+        for s in range(32):
+            out.append({'name': 'path-enum3x5-%d' % s, 'kind': 'path-enum', 'shard': s, 'of': 32, 'budget': 3, 'plen': 5, 'ncfg': 5})
+            out.append({'name': 'fn-enum3x5-%d' % s, 'kind': 'fn-enum', 'shard': s, 'of': 32, 'budget': 3, 'nlen': 5})
     for s in range(8):
         out.append({'name': 'fn-hyp-%d' % s, 'kind': 'fn-hyp', 'seed': seed * 1000 + s, 'n': max(10, int(hyp_n * scale))})
         out.append({'name': 'path-hyp-%d' % s, 'kind': 'path-hyp', 'seed': seed * 1000 + 100 + s, 'n': max(10, int(hyp_n * scale))})
